@@ -491,15 +491,26 @@ def c16(ctx):
     res = os.path.join(ctx.tmp, "c16res.ndjson")
     ctx.run_vh(["c16", "run", trace, res, 0 if thorough else 600], timeout=6 * 3600)
     n = ctx.absorb(res)
-    t = ctx.tlc("CorruptTrace", "CorruptTrace.cfg", mode="trace", files=[trace], timeout=3000)
-    if t["status"] == "invariant" and t.get("which") == "NeverWrong":
+    # the property on every recorded run
+    t = ctx.tlc("CorruptTrace", "CorruptTrace.cfg", mode="trace", files=[trace], timeout=3000,
+                cfg_text="SPECIFICATION Spec\nINVARIANT NeverWrong\nPOSTCONDITION Accepted\nCHECK_DEADLOCK FALSE\n")
+    if t["status"] == "invariant":
         ctx.violation("trace:NeverWrong", "a corrupted run returned a wrong value", t["out"][-2000:])
-    elif t["status"] == "invariant":
-        ctx.drift.append("CorruptTrace.%s fails: the outcome class of a field class differs from TwoParty.tla\n%s" % (t.get("which"), t["out"][-1500:]))
     elif t["status"] != "ok":
         raise Broken("CorruptTrace failed: %s\n%s" % (t["status"], t["out"][-3000:]))
     else:
         ctx.cov["traces_validated_against_impl"] += n
+    # the outcome classes TwoParty.tla's message layout predicts per field class (count and length fields end in an
+    # error, the final result message cannot change the value).  The byte layout of the session is not part of the
+    # property: a session whose framing differs from the modelled one is reported in the evidence, not as a failure
+    t2 = ctx.tlc("CorruptTrace", "CorruptTrace.cfg", mode="trace", files=[trace], timeout=3000, name="corrupt-layout",
+                 cfg_text="SPECIFICATION Spec\nINVARIANT ModelAgrees\nPOSTCONDITION Accepted\nCHECK_DEADLOCK FALSE\n")
+    ctx.cov["layout_model_agrees"] = t2["status"] == "ok"
+    if t2["status"] not in ("ok", "invariant"):
+        raise Broken("CorruptTrace (layout) failed: %s\n%s" % (t2["status"], t2["out"][-3000:]))
+    if t2["status"] == "invariant":
+        print("NOTE: the field classes of TwoParty.tla's message layout no longer predict the outcomes of this tree's sessions "
+              "(framing changed?); NeverWrong was still decided on every run")
     # binding self-test
     rows = read_ndjson(trace)
     r2 = [dict(r) for r in rows]
